@@ -381,6 +381,52 @@ def gen_equalmult_case(rng, q=3, m=2000, nq=300):
     return c
 
 
+def gen_quantbits_case(rng, q, b):
+    """order-3 model without blanks for `-q q -b b` with q != b whose per-order entry counts fit the bins (lossless
+    quantisation expected) while the bigram back-off table is as full as the bins allow: n2 = min(2^q, 2^b - 2) bigrams, every
+    one with its own non-zero back-off and probability; half of the possible trigrams present so that the other half of the
+    queries charges a bigram back-off.  Ring structure: every trigram's context and suffix are bigrams (no blank is added)."""
+    c = Case()
+    n2 = max(2, min(1 << q, (1 << b) - 2))
+    V = n2 + rng.randrange(0, 3)
+    ws = ["w%d" % i for i in range(V)]
+    bi = [(ws[i], ws[(i + 1) % V]) for i in range(n2)]
+    biset = set(bi)
+    tri = [(ws[i], ws[(i + 1) % V], ws[(i + 2) % V]) for i in range(0, n2, 2)
+           if (ws[i], ws[(i + 1) % V]) in biset and (ws[(i + 1) % V], ws[(i + 2) % V]) in biset][: 1 << q]
+    def distinct(k, lo, hi):
+        out = set()
+        while len(out) < k:
+            out.add("-%.5f" % rng.uniform(lo, hi))
+        out = list(out)
+        rng.shuffle(out)
+        return out
+    p1, b1 = distinct(V, 1.0, 4.0), distinct(V, 0.05, 1.0)
+    p2, b2, p3 = distinct(len(bi), 0.1, 3.0), distinct(len(bi), 0.05, 2.0), distinct(max(1, len(tri)), 0.1, 3.0)
+    lines = ["\\data\\", "ngram 1=%d" % (V + 1), "ngram 2=%d" % len(bi), "ngram 3=%d" % len(tri), "", "\\1-grams:", "-4.5\t<unk>"]
+    grams = {1: {("<unk>",): ("-4.5", None)}, 2: {}, 3: {}}
+    for w, p, bo in zip(ws, p1, b1):
+        lines.append("%s\t%s\t%s" % (p, w, bo))
+        grams[1][(w,)] = (p, bo)
+    lines += ["", "\\2-grams:"]
+    for g, p, bo in zip(bi, p2, b2):
+        lines.append("%s\t%s %s\t%s" % (p, g[0], g[1], bo))
+        grams[2][g] = (p, bo)
+    lines += ["", "\\3-grams:"]
+    for g, p in zip(tri, p3):
+        lines.append("%s\t%s %s %s" % (p, g[0], g[1], g[2]))
+        grams[3][g] = (p, None)
+    lines += ["", "\\end\\"]
+    c.arpa = ("\n".join(lines) + "\n").encode()
+    c.order, c.grams = 3, grams
+    c.mult, c.abits = 1.5, rng.choice([0, 6, 22, 64])
+    qs = [("N", [ws[(i + j) % V] for j in range(5)]) for i in range(V)]
+    qs += [("N", [rng.choice(ws + ["oov"]) for _ in range(6)]) for _ in range(6)]
+    c.queries = qs
+    c.meta = {"kind": "quantbits", "order": 3, "unk": "present", "q": q, "b": b, "bigrams": len(bi), "trigrams": len(tri)}
+    return c
+
+
 def is_suffix_closed(N, grams):
     return all(g[1:] in grams[n - 1] for n in range(2, N + 1) for g in grams[n])
 
